@@ -62,7 +62,7 @@ macro_rules! typed {
 
 /// C18: errors tell the truth
 pub fn c18(d: &[u8]) -> Result<(), String> {
-    let mut f = |name: &str, pt: u8, min: usize, r: Result<(), RtcpParseError>| -> Result<(), String> {
+    let f = |name: &str, pt: u8, min: usize, r: Result<(), RtcpParseError>| -> Result<(), String> {
         if let Err(e) = &r {
             truthful(e, d, Some(pt)).map_err(|m| format!("{}: {}", name, m))?;
         }
@@ -88,7 +88,7 @@ pub fn c18(d: &[u8]) -> Result<(), String> {
 
 /// C08: accepted => exactly and consistently framed; header accessors return the header values
 pub fn c08(d: &[u8]) -> Result<(), String> {
-    let mut f = |name: &str, pt: u8, min: usize, r: Result<(), RtcpParseError>| -> Result<(), String> {
+    let f = |name: &str, pt: u8, min: usize, r: Result<(), RtcpParseError>| -> Result<(), String> {
         if r.is_ok() && !framed(d, Some(pt), min) {
             return Err(format!("{} accepted a string that is not exactly framed", name));
         }
